@@ -140,6 +140,9 @@ Fixpoint check_holds (c : check) (args : aenv) (b : benv) : Prop :=
       | [_] => args a = ANumber \/ matches_one_of b args a [p]
       | _ => exists s, args a = AArr s /\ match_pattern b (columnize_pattern p s) s = true
       end
+  | CheckFlat a p =>
+      (exists s, args a = AArr s /\ match_pattern b p [size_of s] = true) \/
+      (args a = ANumber /\ match_pattern b p [1%nat] = true)
   | CheckSame a other => exists s, args other = AArr s /\ args a = AArr s
   | CheckEach a p =>
       (exists ss, args a = ASeq ss /\ forall s, In s ss -> match_pattern b p s = true) \/
@@ -165,7 +168,7 @@ Fixpoint bindings_after (c : check) (args : aenv) (b : benv) : benv :=
 Lemma run_check_ok_iff c : forall args b b',
   run_check c args b = Ok b' <-> (check_holds c args b /\ b' = bindings_after c args b).
 Proof.
-  induction c as [a p bd|a ps bd|a p|a other|a p|a|a c IH]; intros args b b';
+  induction c as [a p bd|a ps bd|a p|a p|a other|a p|a|a c IH]; intros args b b';
     cbn [run_check check_holds bindings_after].
   - (* Check *)
     unfold matches_one_of, vraise. destruct (args a) as [| |s|ss]; try (split; [discriminate|intros [[s' [H _]] _]; discriminate]).
@@ -210,6 +213,16 @@ Proof.
       rewrite G. split.
       * intros [A B]. split; auto. exists s; auto.
       * intros [[s' [H A]] B]. inversion H; subst. auto.
+  - (* CheckFlat *)
+    unfold vraise. destruct (args a) as [| |s|ss].
+    + split; [discriminate|]. intros [[[s' [H _]]|[H _]] _]; discriminate.
+    + destruct (match_pattern b p [1%nat]) eqn:E.
+      * split; [intros H; inversion H; split; [right; split; reflexivity|reflexivity]|intros [_ ->]; reflexivity].
+      * split; [discriminate|]. intros [[[s' [H _]]|[_ H]] _]; [discriminate|congruence].
+    + destruct (match_pattern b p [size_of s]) eqn:E.
+      * split; [intros H; inversion H; subst; split; auto; left; exists s; auto|intros [_ ->]; reflexivity].
+      * split; [discriminate|]. intros [[[s' [H Hm]]|[H _]] _]; [inversion H; subst; congruence|discriminate].
+    + split; [discriminate|]. intros [[[s' [H _]]|[H _]] _]; discriminate.
   - (* CheckSame *)
     unfold vraise. destruct (args other) as [| |so|ss]; try (split; [discriminate|intros [[s' [H _]] _]; discriminate]).
     destruct (args a) as [| |s|ss]; try (split; [discriminate|intros [[s' [_ H]] _]; discriminate]).
@@ -303,6 +316,7 @@ Fixpoint kind_ok (args : aenv) (c : check) : bool :=
   | Check _ _ _ => true
   | CheckAny a ps _ => match ps with [] => true | _ => match args a with AArr _ | ANone => true | _ => false end end
   | Columnize a p => match p with [_] => true | _ => is_arr (args a) end
+  | CheckFlat _ _ => true
   | CheckSame _ other => is_arr (args other)
   | CheckEach a _ => match args a with ASeq _ | AArr (_ :: _) => true | _ => false end
   | NeedsShape a => is_arr (args a)
@@ -312,7 +326,7 @@ Fixpoint kind_ok (args : aenv) (c : check) : bool :=
 Lemma failing_check_raises_ValueError c : forall args b e,
   kind_ok args c = true -> run_check c args b = Raise e -> e = ValueError.
 Proof.
-  induction c as [a p bd|a ps bd|a p|a other|a p|a|a c IH]; intros args b e; simpl; unfold vraise.
+  induction c as [a p bd|a ps bd|a p|a p|a other|a p|a|a c IH]; intros args b e; cbn [run_check kind_ok]; unfold vraise.
   - intros _. destruct (args a); try (intros H; inversion H; reflexivity).
     destruct (match_pattern b p s); intros H; inversion H; reflexivity.
   - destruct ps as [|p0 ps0]; [intros _ H; inversion H; reflexivity|].
@@ -326,6 +340,9 @@ Proof.
       destruct (match_pattern b [d] s); intros H; inversion H; reflexivity.
     + destruct (args a); try discriminate. intros _.
       destruct (match_pattern b _ s); intros H; inversion H; reflexivity.
+  - intros _. destruct (args a); try (intros H; inversion H; reflexivity).
+    + destruct (match_pattern b p [1%nat]); intros H; inversion H; reflexivity.
+    + destruct (match_pattern b p [size_of s]); intros H; inversion H; reflexivity.
   - destruct (args other); try discriminate. intros _.
     destruct (args a); try (intros H; inversion H; reflexivity).
     destruct (shape_eqb s0 s); intros H; inversion H; reflexivity.
@@ -408,3 +425,27 @@ Proof.
   - intros [y [H E]]. apply String.eqb_eq in E. subst; auto.
   - intros H. exists x. split; auto. apply String.eqb_refl.
 Qed.
+
+(* ---- finite tables about the golden contracts live in proofs/P_shape_tables.v ------------------------------- *)
+
+(* ---- decidable equality of contracts (used by the golden-contract tie so that a failure prints `false = true`
+        and the list of differing names instead of two 300-line terms) --------------------------------------- *)
+Definition dim_eq_dec (x y : dim) : {x = y} + {x <> y}.
+Proof. decide equality; try apply Nat.eq_dec; apply string_dec. Defined.
+Definition ostring_eq_dec (x y : option string) : {x = y} + {x <> y}.
+Proof. decide equality; apply string_dec. Defined.
+Definition pattern_eq_dec : forall x y : pattern, {x = y} + {x <> y} := list_eq_dec dim_eq_dec.
+Definition check_eq_dec (x y : check) : {x = y} + {x <> y}.
+Proof.
+  decide equality; try apply string_dec; try apply ostring_eq_dec; try apply pattern_eq_dec.
+  apply (list_eq_dec pattern_eq_dec).
+Defined.
+Definition contracts_eq_dec : forall x y : contracts, {x = y} + {x <> y}.
+Proof.
+  apply list_eq_dec. intros [n c] [n' c'].
+  destruct (string_dec n n') as [->|Hn]; [|right; congruence].
+  destruct (list_eq_dec check_eq_dec c c') as [->|Hc]; [left; reflexivity|right; congruence].
+Defined.
+Definition decb {P : Prop} (d : {P} + {~ P}) : bool := if d then true else false.
+Lemma dec_true {P : Prop} (d : {P} + {~ P}) : decb d = true -> P.
+Proof. destruct d; [auto|discriminate]. Qed.
